@@ -398,6 +398,7 @@ class ISD(model.Document):
     styles.StyleProperties.TextOutline,
     styles.StyleProperties.TextShadow,
     styles.StyleProperties.TextEmphasis,
+    styles.StyleProperties.TextDecoration,
     styles.StyleProperties.Padding
   )
 
@@ -1257,6 +1258,21 @@ class StyleProcessors:
         )
 
       element.set_style(cls.style_prop, style_value)
+
+    @classmethod
+    def compute(cls, parent: model.ContentElement, element: model.ContentElement):
+      value: styles.TextDecorationType = element.get_style(cls.style_prop)
+
+      # components that are neither specified nor inherited are off
+
+      element.set_style(
+        cls.style_prop,
+        styles.TextDecorationType(
+          underline=bool(value.underline),
+          line_through=bool(value.line_through),
+          overline=bool(value.overline)
+        )
+      )
 
   class TextEmphasis(StyleProcessor):
     style_prop = styles.StyleProperties.TextEmphasis
